@@ -159,7 +159,7 @@ class ClassInfo(object):
 
 
 class ModuleInfo(object):
-    def __init__(self, name, path, text):
+    def __init__(self, name, path, text, sibling_source=None):
         self.name = name
         self.path = path
         self.text = text
@@ -168,7 +168,7 @@ class ModuleInfo(object):
             from .roles import restore_names
             tree = ast.parse(text, filename=path)
             self.restored_names = restore_names(name, tree)      # renamed private helpers get the names the rules know
-            self.tree = normalise(tree)
+            self.tree = normalise(tree, name, sibling_source)
         except SyntaxError as exc:
             raise AnalysisError("syntax error in %s: %s" % (path, exc))
         self.is_package = path.endswith("__init__.py")
@@ -222,6 +222,13 @@ class Program(object):
         self.functions = {}  # qualname -> FuncInfo
         self._build()
 
+    def _sibling_source(self, dotted):
+        """source text of another module of the package (for private definitions a module imports from its sibling)"""
+        for rel in (dotted.replace(".", "/") + ".py", dotted.replace(".", "/") + "/__init__.py"):
+            if rel in self.sources:
+                return self.sources[rel]
+        return None
+
     # ------------------------------------------------------------------ build
     def _build(self):
         for path, text in sorted(self.sources.items()):
@@ -230,7 +237,7 @@ class Program(object):
             name = path[:-3].replace("/", ".")
             if name.endswith(".__init__"):
                 name = name[:-9]
-            self.modules[name] = ModuleInfo(name, path, text)
+            self.modules[name] = ModuleInfo(name, path, text, self._sibling_source)
         if PKG not in self.modules:
             raise AnalysisError("package %s has no __init__.py" % PKG)
         for mod in self.modules.values():
